@@ -255,6 +255,18 @@ class World:
                 s.keep_only_between(keep_starts=st["f1"], keep_ends=st["f2"], **kwds)
             elif op == "query":
                 pass
+            elif op == "display":
+                # calls that only show the scheduler: they must leave the graph, and what the
+                # queries answer afterwards, alone
+                for show in (s.list, s.list_safe, s.dot_format, s.stats, lambda: repr(s),
+                             s.repr_entries if hasattr(s, "repr_entries") else s.stats,
+                             s.repr_exits if hasattr(s, "repr_exits") else s.stats):
+                    try:
+                        show()
+                    except WallClock:
+                        raise
+                    except Exception:                   # pylint: disable=W0703
+                        pass     # cyclic graphs cannot be listed; known finding K1 for dot_format()
             else:
                 exc = "unknown-op"
         except BaseException as err:                    # pylint: disable=W0703
